@@ -95,8 +95,34 @@ struct xctx {
     size_t n;
     unsigned pol, depth, maxseen, nodes, attrs, bodies;
 };
+/* every callback first parses another document, held in a block of its own that is released again, and only then looks at
+ * the node it was given: views of a node lie inside THAT node's input whatever other parses have happened in between (added
+ * after a seeded change that moved the parser's attribute scratch space to file scope) */
+static int xml_other_cb(struct aws_xml_node *node, void *ud) {
+    (void)aws_xml_node_get_num_attributes(node);
+    return aws_xml_node_traverse(node, xml_other_cb, ud);
+}
+static int xml_other_depth;
+static void xml_other_parse(void) {
+    static const char other[] = "<o k=\"v\" kk=\"vv\"><p q=\"r\">t</p></o>";
+    if (xml_other_depth) return;
+    ++xml_other_depth;
+    int saved = aws_last_error();
+    char *blk = (char *)malloc(sizeof(other) - 1);
+    memcpy(blk, other, sizeof(other) - 1);
+    struct aws_xml_parser_options o;
+    memset(&o, 0, sizeof(o));
+    o.doc = aws_byte_cursor_from_array(blk, sizeof(other) - 1);
+    o.on_root_encountered = xml_other_cb;
+    (void)aws_xml_parse(A, &o);
+    free(blk);
+    if (saved) aws_raise_error(saved);
+    else aws_reset_error();
+    --xml_other_depth;
+}
 static int xml_cb(struct aws_xml_node *node, void *ud) {
     struct xctx *x = (struct xctx *)ud;
+    xml_other_parse();
     x->nodes++;
     x->depth++;
     if (x->depth > x->maxseen) x->maxseen = x->depth;
